@@ -83,8 +83,24 @@ def run_event_cap(ctx):
                 for y in set(b.succs_of(cb)):
                     if bb not in b.reachable(y, avoid_blocks=[]):
                         sane = True
+            # strictness: on every edge of the test from which the accumulation is still reachable, the relation that holds must
+            # be next_var < max_events (a `>` test lets the (max_events+1)-th event through)
+            NEG = {"Ge": "Lt", "Gt": "Le", "Lt": "Ge", "Le": "Gt", "Eq": "Ne", "Ne": "Eq"}
+            MIR = {"Ge": "Le", "Gt": "Lt", "Lt": "Gt", "Le": "Ge", "Eq": "Eq", "Ne": "Ne"}
+            loose = None
+            for cb, st, l, rr in cmps:
+                tt = b.term(cb)
+                op = st["op"] if "next_var" in l else MIR[st["op"]]
+                false_t = {tgt for v, tgt in tt["cases"] if v == 0}
+                for y in set(b.succs_of(cb)):
+                    if bb in b.reachable(y, avoid_blocks=[]):
+                        rel = NEG[op] if y in false_t else op
+                        if rel != "Lt":
+                            loose = (rel, tt.get("sp") or t["sp"])
             if not sane:
                 ctx.violation("event-cap", key, "the cap test does not branch away from the accumulation", site=t["sp"])
+            elif loose:
+                ctx.violation("event-cap", key, "a Kleene event is accumulated under `next_var %s max_events`, not under `next_var < max_events`: the capture can grow to max_events + 1 events" % {"Le": "<=", "Ge": ">=", "Gt": ">", "Ne": "!=", "Eq": "=="}.get(loose[0], loose[0]), site=loose[1])
             else:
                 ctx.ok("event-cap", key, "past `%s`" % " / ".join("%s %s %s" % (l, st["op"], rr) for _, st, l, rr in cmps[:2]), site=t["sp"])
     ctx.floor("event-cap", "KleeneCapture::extend* call sites", n, 4)
